@@ -11,6 +11,8 @@ use std::panic::{catch_unwind, AssertUnwindSafe};
 use aeron_rs::utils::errors::AeronError;
 
 pub mod client;
+#[cfg(unitedtraders_aeron_rs_verif)]
+pub mod sched;
 
 /// Silence the default panic message (panics are observations here, not noise).
 pub fn quiet_panics() {
